@@ -1893,7 +1893,7 @@ func parseFontVariant(tokens []Token, all utils.Set, couples [][]string) pr.SStr
 		if !isIdent {
 			return pr.SStrings{}
 		}
-		identValue := string(ident.Value)
+		identValue := utils.AsciiLower(ident.Value)
 		if all.Has(identValue) {
 			var concurrentValues []string
 			for _, couple := range couples {
